@@ -166,6 +166,18 @@ def burst_scripts():
     return out
 
 
+def reconnect_scripts():
+    """one real manager, several sessions to the same peer under the same key (peer drops, manager connects again): 'a fresh nonce'
+    is a statement about everything sent under that key, not about one session"""
+    out = []
+    for seed, hs, n, cnt in ((701, 1, 40, 4), (702, 0, 1, 6), (703, 1, 1000, 3)):
+        lines = []
+        for k in range(3):
+            lines += ["reset mode=out seed=%d hs=%d%s" % (seed, hs, " keep=1" if k else ""), "send from=A n=%d count=%d vary=3 seed=%d" % (n, cnt, 11 + k), "sync"]
+        out.append(lines + ["close"])
+    return out
+
+
 def oversized_scripts(huge):
     """length prefixes above the limit, with and without body, followed by a valid frame that must not be delivered"""
     out = []
@@ -322,7 +334,8 @@ def validate_all(chk, groups, block_budget, label):
         spans.append((len(allev) + 1, lab))
         allev += evs
         nres = sum(1 for e in evs if e["op"] == "reset")
-        scripts += (list(behs) + [[]] * nres)[:nres]
+        per_reset = [b_ for b_ in behs for _ in range(max(1, sum(1 for ln in b_ if ln.startswith("reset"))))]   # a scenario may span several sessions
+        scripts += (per_reset + [[]] * nres)[:nres]
     if not allev:
         return None
     blocks = bound_cipher(chk, allev, block_budget)
@@ -391,7 +404,7 @@ def run(chk):
     ms = model_scripts(chk, hists, 2000 if thorough else 220, 1200 if thorough else 100)
     log("[gen] %d TLC state-cover paths, %d replayed" % (len(hists), len(ms)))
     for lab, sc in (("tlc-state-cover", ms), ("boundary-sizes", boundary_scripts()), ("bursts", burst_scripts()), ("oversized-prefix", oversized_scripts(False)),
-                    ("oversized-prefix-huge", oversized_scripts(True)), ("timing", timing_scripts()), ("random", random_scripts(chk.rng, 1500 if thorough else 120))):
+                    ("oversized-prefix-huge", oversized_scripts(True)), ("timing", timing_scripts()), ("random", random_scripts(chk.rng, 1500 if thorough else 120)), ("reconnect-same-key", reconnect_scripts())):
         groups.append((lab, run_driver(chk, sc, lab), sc))
     # concurrent senders on one session: a race, so the scenario is repeated until it shows a problem (at most 3 / 6 times)
     for attempt in range(6 if thorough else 3):
